@@ -4,6 +4,7 @@
   framebuffer type rule, RSDP checksums, memory areas); `Layout`: the SOURCE-DERIVED facts (struct layouts, IDs, BASE_SIZE,
   accessor -> field) regenerated from /repo on every run, compared with the model tables.
 -/
+import Mb2.Props.FnsTblFixed
 import Mb2.Props.FnsTblMbi
 import Mb2.Props.FnsTblTags
 import Mb2.Props.FnsTblEfi
